@@ -838,6 +838,15 @@ func findWalk(c *core.Ctx) *ssa.Function {
 	if out == nil {
 		core.Bail("no function invoking the detector field found (walk)")
 	}
+	rec := false
+	for _, ci := range core.Calls(out) {
+		if ci.Common().StaticCallee() == out {
+			rec = true
+		}
+	}
+	if !rec {
+		core.Bail("the function invoking detectors (%s) is not a recursive first-match descent; an iterative walk is outside the recognised idiom and the walk rules cannot be set up (undecided, not a violation)", out.Name())
+	}
 	return out
 }
 
